@@ -365,6 +365,20 @@ func (w *World) Drain(i int) Obs {
 	return o
 }
 
+// Do runs f (an event that is not a client message: a WHIP session joining
+// or going away, an administrative call) under the panic guard and collects
+// what it made the server write.
+func (w *World) Do(f func()) Obs {
+	var o Obs
+	if w.Dead {
+		w.collect(&o)
+		return o
+	}
+	w.guard(&o, f)
+	w.collect(&o)
+	return o
+}
+
 // Disconnect is the websocket going away (reader error).
 func (w *World) Disconnect(i int) Obs {
 	var o Obs
